@@ -9,7 +9,7 @@ from ..core import AnalysisError
 
 LEVEL = 'other'
 EXPLANATION = (
-    "Static analysis (dataflow lint + single-writer / paired-update rules). (R1) loop-overwrite lint over the whole package: inside a loop, an unconditional plain assignment to an attribute of a loop-invariant object whose right-hand side depends on the loop and not on the attribute itself keeps only the last iteration (positive fixture must match); (R2) single writers: history.append only in after_rule_apply, Rule.apply is @final and emits AFTER_RULE_APPLY once after _apply, rule.apply called only from Tableau.step and the two test helpers, the open list is appended/removed only in add_branch/after_close and a branch is listed open iff it is not closed, step numbers recorded are the current step; (R3) Branch.append refuses a closed branch first and branches never lose nodes; (R4) forks extend their parent: Tableau.branch(parent) = parent.copy(parent=parent), BranchCache.after_branch_add copies the parent's entry; (R5) the tree builder accumulates counts over children and gives every branch one leaf. Equality of every count with a recomputed value at every step of every proof is declined. (R6) build_trunk folded for every logic: premises in order, then the conclusion under Negation / undesignated. R2-R5 are folds throughout: current_step, Rule.apply, the listeners, Branch.closed, Tableau.branch, the BranchCache listeners, Tableau.Tree.make over mock tableaux (compared with the tree computed from the branches) and _compute_stats. (R7) node freshness (sa.fresh): in rules, helpers and logic modules no node built by a function is kept in state that outlives the call and is read back (attribute, container slot, global, memoising decorator) -- a kept node can land on two sibling branches, get two addition steps and be counted once per leaf. R7 also treats mutable parameter defaults and module-level tables as state that outlives the call.")
+    "Static analysis (dataflow lint + single-writer / paired-update rules). (R1) loop-overwrite lint over the whole package: inside a loop, an unconditional plain assignment to an attribute of a loop-invariant object whose right-hand side depends on the loop and not on the attribute itself keeps only the last iteration (positive fixture must match); (R2) single writers: history.append only in after_rule_apply, Rule.apply is @final and emits AFTER_RULE_APPLY once after _apply, rule.apply called only from Tableau.step and the two test helpers, the open list is appended/removed only in add_branch/after_close and a branch is listed open iff it is not closed, step numbers recorded are the current step; (R3) Branch.append refuses a closed branch first and branches never lose nodes; (R4) forks extend their parent: Tableau.branch(parent) = parent.copy(parent=parent), BranchCache.after_branch_add copies the parent's entry; (R5) the tree builder accumulates counts over children and gives every branch one leaf. Equality of every count with a recomputed value at every step of every proof is declined. (R6) build_trunk folded for every logic: premises in order, then the conclusion under Negation / undesignated. R2-R5 are folds throughout: current_step, Rule.apply, the listeners, Branch.closed, Tableau.branch, the BranchCache listeners, Tableau.Tree.make over mock tableaux (compared with the tree computed from the branches) and _compute_stats. (R7) node freshness (sa.fresh): in rules, helpers and logic modules no node built by a function is kept in state that outlives the call and is read back (attribute, container slot, global, memoising decorator) -- a kept node can land on two sibling branches, get two addition steps and be counted once per leaf. R7 also treats mutable parameter defaults and module-level tables as state that outlives the call. R4 also imports the AdzHelper._apply fold (C01.R4): every branch a step creates is forked from the branch the rule was applied to.")
 TRUSTED = ['CPython ast', 'sa.astq loop/guard helpers']
 ASSUMPTIONS = ['EventEmitter delivers events synchronously and in registration order (not analysed)']
 
